@@ -30,6 +30,10 @@ def run_simplex(ctx, props):
         fails, errors = C.eval_cases(ctx, "tie", IMP, "tcase", lines, fn="tfailures", shard=100)
         soft, e2 = C.eval_cases(ctx, "tiesoft", IMP, "tcase", lines, fn="tsoft", shard=100)
         errors += e2
+        unmet, e3 = C.eval_cases(ctx, "tiepre", IMP, "tcase", lines, fn="tpremises_unmet", shard=100)
+        errors += e3
+    else:
+        unmet = []
     if errors:
         ctx.broken.append("correspondence evaluation failed in Coq: %s" % errors[0][1][-400:])
     if fails:
@@ -52,6 +56,8 @@ def run_simplex(ctx, props):
         "input_distribution": {k: v for k, v in cnt.items() if k.startswith("std.") or k.startswith("tableau.") or k.startswith("solve.")},
         "pivot_steps_replayed_in_model": cnt.get("c14.steps", 0),
         "two_phase_start_differs_by_pivot_choice": len(soft),
+        "transfer_theorem_premises_unmet_on_impl_output": len(unmet),
+        "transfer_theorem_premises": "lin_okb of the input model and pairwise distinct column names of the implementation's standard form, evaluated in Coq on every tied case",
         "grid_points_transfer_checked_on_impl": cnt.get("c13.points", 0),
         "optimality_checked_against_vertex_enumeration": cnt.get("c14.optimality_checked", 0),
         "unbounded_reports_checked_by_ray_certificate": cnt.get("c14.unbounded_checked", 0),
